@@ -315,6 +315,7 @@ package go_clipper2
 //@   loop 0 invariant [bound] len(path) <= 7 ==> absI(a) <= int64(_i)*pow2(60)
 //@   ensures [short] len(path) < 3 ==> result == 0
 //@   ensures [half] len(path) >= 3 ==> 2*result == toReal(shoelace(path, len(path)))
+//@   ensures [bounded] absI(result) <= 9223372036854775808.0
 
 //@ func Area64 variant anylength
 //@   props C14
@@ -1288,7 +1289,7 @@ package go_clipper2
 //@ spec allBeside(r Rect64, path Path64) bool = forall(k, 0, len(path), path[k].X < r.left) || forall(k, 0, len(path), path[k].X > r.right) || forall(k, 0, len(path), path[k].Y < r.top) || forall(k, 0, len(path), path[k].Y > r.bottom)
 
 //@ func RectClip64.Execute variant fastpaths
-//@   props C06 C11
+//@   props C06 C11 C03
 //@   nosafety
 //@   loop 0 step [short-paths-skipped] len(path) < 3 ==> same(result, old(result))
 //@   loop 0 step [inside-unchanged] (len(path) >= 3 && allInRect(r.rect, path)) ==> (len(result) == old(len(result)) + 1 && same(result[len(result)-1], path) && forall(k, 0, old(len(result)), same(result[k], old(result)[k])))
@@ -1317,12 +1318,16 @@ package go_clipper2
 //@   nosafety
 //@   assumes forall(k, 0, len(g.inPaths), domPath(g.inPaths[k], 29) && (len(g.inPaths[k]) <= 7 || noWrap(g.inPaths[k])))
 //@   loop 0 invariant [orientation-of-lowest] -1 <= idx && idx < _i+1 && idx < len(g.inPaths)+1 && (idx >= 0 ==> (idx < _i && isNegArea == (Area64(g.inPaths[idx]) < 0)))
-//@   loop 0.0 invariant [area-of-this-path] (a != 1.7976931348623157e308 ==> (a == Area64(path) && a != 0)) && -1 <= idx && idx <= i && (idx == i ==> (a != 1.7976931348623157e308 && isNegArea == (a < 0))) && ((idx >= 0 && idx < i) ==> isNegArea == (Area64(g.inPaths[idx]) < 0)) && same(path, g.inPaths[i]) && i < len(g.inPaths)
+//@   loop 0.0 invariant [shape] -1 <= idx && idx <= i && same(path, g.inPaths[i]) && 0 <= i && i < len(g.inPaths)
+//@   loop 0.0 invariant [area-cached] a != 1.7976931348623157e308 ==> (a == Area64(g.inPaths[i]) && a != 0 && idx == i)
+//@   loop 0.0 invariant [this-path] idx == i ==> (a != 1.7976931348623157e308 && isNegArea == (a < 0))
+//@   loop 0.0 invariant [earlier-path] (idx >= 0 && idx < i) ==> isNegArea == (Area64(g.inPaths[idx]) < 0)
 //@   ensures [orientation-of-lowest] result0 >= 0 ==> (result0 < len(g.inPaths) && result1 == (Area64(g.inPaths[result0]) < 0))
 
 //@ func InflatePathsD
 //@   props C07
 //@   nosafety
+//@   maypanic
 //@   assert after tmp [scaled-input] same(tmp, ScalePathsDToPaths64(paths, pow10(cfg.precision)))
 //@   assert after co [scaled-parameters] co != nil && co.ArcTolerance == pow10(cfg.precision)*cfg.arcTolerance && co.MiterLimit == ite(cfg.miterLimit == 0, 2.0, cfg.miterLimit) && !co.PreserveCollinear && !co.ReverseSolution
 
